@@ -4,7 +4,10 @@ from . import driver
 from .unit import VERIF
 
 
-def run(timeout=3000, jobs=12):
+GROUPS = {'limbs': ('fq_repr', 'fr_repr', 'fq_field', 'fr_field'), 'window': ('pippenger_window',)}
+
+
+def run(timeout=3000, jobs=12, group=None):
     work = os.path.join(driver.OUT, 'kani')
     os.makedirs(os.path.join(work, 'src'), exist_ok=True)
     os.makedirs(os.path.join(work, '.cargo'), exist_ok=True)
@@ -26,6 +29,11 @@ def run(timeout=3000, jobs=12):
     wall = time.time() - t0
     harnesses = sorted(set(re.findall(r'Checking harness (\S+?)\.\.\.', out)))
     failed = re.findall(r'Verification failed for - (\S+)', out)
+    all_h, all_failed = harnesses, failed
+    if group:
+        mods = GROUPS[group]
+        harnesses = [h for h in harnesses if h.split('::')[1] in mods]
+        failed = [h for h in failed if h.split('::')[1] in mods]
     m = re.search(r'Complete - (\d+) successfully verified harnesses, (\d+) failures, (\d+) total', out)
     status = 'undecided'
     if to:
@@ -35,9 +43,9 @@ def run(timeout=3000, jobs=12):
     else:
         ok, bad, tot = int(m.group(1)), int(m.group(2)), int(m.group(3))
         reason = ''
-        status = 'pass' if bad == 0 and ok == tot and tot == len(harnesses) else ('fail' if bad else 'undecided')
+        status = 'fail' if failed else ('pass' if ok + bad == tot and tot == len(all_h) and harnesses else 'undecided')
         if status == 'undecided':
-            reason = f'harness count mismatch: {tot} run, {len(harnesses)} declared'
+            reason = f'harness count mismatch: {tot} run, {len(all_h)} listed, {len(harnesses)} in group'
     return dict(status=status, reason=reason, harnesses=harnesses, failed=failed, wall=wall, cmd=' '.join(cmd), output_tail=out[-3000:], work=work, env=env)
 
 
